@@ -99,6 +99,18 @@ def c16_variational(tier, seed, count=None):
                         fails.append(r)
                         if count is None:
                             return fails
+    # close-but-distinct losses (a fit that has plateaued): "is the minimum" must be exact, not approximate
+    for L in (2, 3, 4):
+        for perm in itertools.permutations(range(1, L + 1)):
+            for scale in (4e-6, 3e-9):
+                losses = [1.0 + scale * x for x in perm]
+                for rb in (True, False):
+                    n += 1
+                    r = rt.rt_variational(losses, L, rb)
+                    if r is not None:
+                        fails.append(r)
+                        if count is None:
+                            return fails
     if count is not None:
         count.append(n)
     return fails
@@ -122,6 +134,17 @@ def c16_fit_to_data(tier, seed, count=None):
                             fails.append(r)
                             if count is None:
                                 return fails
+    for L in (3, 4):
+        for perm in itertools.permutations(range(1, L + 1)):
+            losses = [1.0 + 4e-6 * x for x in perm]
+            for mp in (0, 1, L):
+                for rb in (True, False):
+                    n += 1
+                    r = rt.rt_fit_to_data(losses, L, mp, rb)
+                    if r is not None:
+                        fails.append(r)
+                        if count is None:
+                            return fails
     if count is not None:
         count.append(n)
     return fails
@@ -134,7 +157,7 @@ def g_c16(tier, seed):
     fails += c16_fit_to_data(tier, seed, cnt)
     cnt = [sum(cnt)]
     return dict(evaluations=cnt[0], distinct_nontrivial=cnt[0] - sum(1 for _ in range(1)),
-                rule="real fit_to_data (one train + one validation batch per epoch, max_patience 0..L, max_epochs in {0,1,L-1,L}) and real fit_to_variational_target driven by a scripted loss table (every permutation of 1..L, L<=4 quick / 5 thorough) and a counting optimiser, steps in {0,1,L-1,L}, return_best in {T,F}; each (permutation, steps, return_best) is distinct; non-trivial = L>1 or steps>0",
+                rule="real fit_to_data (one train + one validation batch per epoch, max_patience 0..L, max_epochs in {0,1,L-1,L}) and real fit_to_variational_target driven by a scripted loss table (every permutation of 1..L, L<=4 quick / 5 thorough) and a counting optimiser, steps in {0,1,L-1,L}, return_best in {T,F}; also the same orderings with losses 1 + 4e-6*rank / 1 + 3e-9*rank (close but distinct); each (history, steps, return_best) is distinct; non-trivial = L>1 or steps>0",
                 samples=[dict(losses=[3.0, 1.0, 2.0], steps=3, return_best=True)], failures=fails[:5], errors=[])
 
 
